@@ -321,6 +321,9 @@ func TestVerifC13Table(t *testing.T) {
 		t.Fatal(err)
 	}
 	defer f.Close()
+	// the constants the model copies: DefaultName()'s three parts and MissingPart, as the real code has them
+	dn := DefaultName()
+	fmt.Fprintf(f, "M 0 consthex %s %s %s %s\n", zzverif.Hex([]byte(dn.Host)), zzverif.Hex([]byte(dn.Namespace)), zzverif.Hex([]byte(dn.Tag)), zzverif.Hex([]byte(MissingPart)))
 	for kind := 0; kind < 5; kind++ {
 		k := partKind(kind)
 		var first, rest []string
